@@ -118,7 +118,8 @@ func New(t *tape.Tape, o Options) *Workspace {
 		}
 		m := ws.Modules[mi]
 		dir := m.Dirs[t.Draw("ws.fdir", len(m.Dirs))]
-		f := &File{Module: mi, Path: fmt.Sprintf("%s/f%d.proto", dir, j)}
+		// a tape-chosen leading letter decouples the sort order of file names from the import order
+		f := &File{Module: mi, Path: fmt.Sprintf("%s/%c%d.proto", dir, 'a'+rune(t.Draw("ws.letter", 6)), j)}
 		f.Package = strings.ReplaceAll(dir, "/", ".")
 		f.Message = f.Package + fmt.Sprintf(".M%d", j)
 		switch t.Draw("ws.syntax", 8) {
